@@ -232,5 +232,148 @@ example : update (.arraylike (.prim .i32)) (.array (.prim .i32) 3) false false =
 example : update (.array (.prim .i32) 3) (.arraylike (.prim .i32)) false false = some (.array (.prim .i32) 3) := by decide
 example : update (.struct 4) (.unresolved none) false false = some (.struct 4) := by decide
 
+
+/-! ### autoderef never takes an address -/
+
+theorem holdsAddress_unalias : ∀ t : Ty, holdsAddress (unalias t) = holdsAddress t
+  | .void => rfl
+  | .prim p => by cases p <;> rfl
+  | .array t n => by simp [unalias, holdsAddress, holdsAddress_unalias t]
+  | .arrayNamed t x => by simp [unalias, holdsAddress, holdsAddress_unalias t]
+  | .slice t => by simp [unalias, holdsAddress, holdsAddress_unalias t]
+  | .slicePtr t => by simp [unalias, holdsAddress]
+  | .endless t => by simp [unalias, holdsAddress, holdsAddress_unalias t]
+  | .arraylike t => by simp [unalias, holdsAddress, holdsAddress_unalias t]
+  | .struct _ => rfl
+  | .word _ _ => rfl
+  | .unresolved _ => rfl
+  | .pointer t => by simp [unalias, holdsAddress]
+  | .view t => by simp [unalias, holdsAddress, holdsAddress_unalias t]
+
+theorem equals_holdsAddress (a b : Ty) (h : equals a b = true) : holdsAddress b = holdsAddress a := by
+  have := (equals_iff a b).mp h
+  rw [← holdsAddress_unalias a, ← holdsAddress_unalias b, this]
+
+theorem coerceInto_holdsAddress (a b : Ty) (h : coerceInto a b = true) (hb : holdsAddress b = true) : holdsAddress a = true := by
+  have viaElem : ∀ e e' : Ty, equals e e' = true → holdsAddress e' = true → holdsAddress e = true :=
+    fun e e' he hh => by rw [← equals_holdsAddress e e' he]; exact hh
+  cases a with
+  | array e n =>
+    cases b with
+    | slice e' => exact viaElem e e' (by simpa [coerceInto] using h) (by simpa [holdsAddress] using hb)
+    | view d =>
+      cases d with
+      | endless e' => exact viaElem e e' (by simpa [coerceInto] using h) (by simpa [holdsAddress] using hb)
+      | _ => simp [coerceInto] at h
+    | _ => simp [coerceInto] at h
+  | arrayNamed e x =>
+    cases b with
+    | slice e' => exact viaElem e e' (by simpa [coerceInto] using h) (by simpa [holdsAddress] using hb)
+    | view d =>
+      cases d with
+      | endless e' => exact viaElem e e' (by simpa [coerceInto] using h) (by simpa [holdsAddress] using hb)
+      | _ => simp [coerceInto] at h
+    | _ => simp [coerceInto] at h
+  | slice e =>
+    cases b with
+    | view d =>
+      cases d with
+      | endless e' => exact viaElem e e' (by simpa [coerceInto] using h) (by simpa [holdsAddress] using hb)
+      | _ => simp [coerceInto] at h
+    | _ => simp [coerceInto] at h
+  | slicePtr e => rfl
+  | struct i =>
+    cases b with
+    | view d =>
+      simp only [coerceInto, beq_iff_eq] at h
+      subst h
+      simp [holdsAddress] at hb
+    | _ => simp [coerceInto] at h
+  | void => simp [coerceInto] at h
+  | prim _ => simp [coerceInto] at h
+  | endless _ => simp [coerceInto] at h
+  | arraylike _ => simp [coerceInto] at h
+  | word _ _ => simp [coerceInto] at h
+  | unresolved _ => simp [coerceInto] at h
+  | pointer _ => simp [coerceInto] at h
+  | view _ => simp [coerceInto] at h
+
+theorem subAutoderef_holdsAddress : ∀ (a b : Ty), subAutoderef a b = true → holdsAddress b = true → holdsAddress a = true
+  | .pointer _, _, _, _ => rfl
+  | .view d, b, h, hb => by
+    simp only [subAutoderef, Bool.or_eq_true] at h
+    simp only [holdsAddress]
+    rcases h with (h | h) | h
+    · rw [← equals_holdsAddress d b h]; exact hb
+    · exact subAutoderef_holdsAddress d b h hb
+    · cases b with
+      | view t => exact subAutoderef_holdsAddress d t h (by simpa [holdsAddress] using hb)
+      | _ => simp at h
+  | .void, _, h, _ => by simp [subAutoderef] at h
+  | .prim _, _, h, _ => by simp [subAutoderef] at h
+  | .array _ _, _, h, _ => by simp [subAutoderef] at h
+  | .arrayNamed _ _, _, h, _ => by simp [subAutoderef] at h
+  | .slice _, _, h, _ => by simp [subAutoderef] at h
+  | .slicePtr _, _, _, _ => rfl
+  | .endless _, _, h, _ => by simp [subAutoderef] at h
+  | .arraylike _, _, h, _ => by simp [subAutoderef] at h
+  | .struct _, _, h, _ => by simp [subAutoderef] at h
+  | .word _ _, _, h, _ => by simp [subAutoderef] at h
+  | .unresolved _, _, h, _ => by simp [subAutoderef] at h
+
+/-- **C08: no address is ever taken implicitly.**  If a reference of type `a` may be read as `b` (autoderef, with the
+    array-to-slice/view coercions), every pointer in `b` comes from a pointer in `a`: a value that holds no address cannot
+    become one that does.  (The explicit `&` is the only way to make a pointer: E513 otherwise.) -/
+theorem autoderef_takes_no_address (a b : Ty) (h : autoderef a b = true) (hb : holdsAddress b = true) : holdsAddress a = true := by
+  cases a with
+  | pointer d => rfl
+  | slicePtr e => rfl
+  | view d =>
+    simp only [autoderef, Bool.or_eq_true] at h
+    simp only [holdsAddress]
+    rcases h with ((h | h) | h) | h
+    · have := equals_holdsAddress _ _ h; simp only [holdsAddress] at this; rw [← this]; exact hb
+    · rw [← equals_holdsAddress d b h]; exact hb
+    · exact subAutoderef_holdsAddress d b h hb
+    · cases b with
+      | view t => exact subAutoderef_holdsAddress d t h (by simpa [holdsAddress] using hb)
+      | _ => simp at h
+  | array e n =>
+    simp only [autoderef, Bool.or_eq_true] at h
+    rcases h with h | h
+    · rw [← equals_holdsAddress _ _ h]; exact hb
+    · exact coerceInto_holdsAddress _ _ h hb
+  | arrayNamed e x =>
+    simp only [autoderef, Bool.or_eq_true] at h
+    rcases h with h | h
+    · rw [← equals_holdsAddress _ _ h]; exact hb
+    · exact coerceInto_holdsAddress _ _ h hb
+  | slice e =>
+    simp only [autoderef, Bool.or_eq_true] at h
+    rcases h with h | h
+    · rw [← equals_holdsAddress _ _ h]; exact hb
+    · exact coerceInto_holdsAddress _ _ h hb
+  | endless e =>
+    simp only [autoderef, Bool.or_eq_true] at h
+    rcases h with h | h
+    · rw [← equals_holdsAddress _ _ h]; exact hb
+    · exact coerceInto_holdsAddress _ _ h hb
+  | struct i =>
+    simp only [autoderef, Bool.or_eq_true] at h
+    rcases h with h | h
+    · rw [← equals_holdsAddress _ _ h]; exact hb
+    · exact coerceInto_holdsAddress _ _ h hb
+  | void => simp [autoderef] at h
+  | prim _ => simp [autoderef] at h
+  | arraylike _ => simp [autoderef] at h
+  | word _ _ => simp [autoderef] at h
+  | unresolved _ => simp [autoderef] at h
+
+-- a pointer to an array reads as a slice pointer; an array never does
+example : autoderef (.pointer (.array (.prim .i32) 3)) (.slicePtr (.prim .i32)) = true := by decide
+example : autoderef (.array (.prim .i32) 3) (.slicePtr (.prim .i32)) = false := by decide
+example : autoderef (.array (.prim .i32) 3) (.slice (.prim .i32)) = true := by decide
+example : autoderef (.pointer (.pointer (.prim .i32))) (.prim .i32) = true := by decide
+
 end Ty
 end Types
